@@ -789,7 +789,12 @@ func (s *session) readDisconnected(oldConn net.Conn, err error) {
 		return
 	case statusActiveClosing:
 	default:
-		s.changeStatus(statusPassiveClosing)
+		// CAS from the loaded status: a concurrent Close() or redial may have
+		// changed it since the load, in which case the decision is re-made.
+		if !s.tryChangeStatus(statusPassiveClosing, status) {
+			s.readDisconnected(oldConn, err)
+			return
+		}
 	}
 
 	s.peer.sessHub.delete(s.ID())
